@@ -18,6 +18,7 @@ import (
 	"fmt"
 	"os"
 	"runtime/debug"
+	"runtime/pprof"
 	"sort"
 	"strings"
 	"sync"
@@ -35,7 +36,8 @@ var (
 	c *vlib.Check
 
 	mu        sync.Mutex
-	d1Failing = map[string]bool{} // fn|component|siteClass  — single-header failures (explain d=2 failures)
+	d1Failing = map[string]bool{} // fn|component|family|siteClass — single-header failures (explain d=2 failures)
+	origFail  = map[string]bool{} // fn|component|fixture — failures of an unchanged block (explain every variant of it)
 	counters  = map[string]int64{}
 	pending   = map[string]*pendingViolation{} // smallest failing variant per (extractor, component, family, class); emitted at the end
 )
@@ -64,6 +66,7 @@ func (p *pendingViolation) less(q *pendingViolation) bool {
 }
 
 var fxOrder = map[string]int{}
+var stopProf = func() {}
 
 func count(k string, n int64) {
 	mu.Lock()
@@ -172,7 +175,8 @@ func compare(block []byte, lay *Layout, off *common.BlockTransactionOffsets) (mm
 			return r == want || (dWit != 0 && wit.Len() == exp.Witness.Len() && r == shift(want, dWit))
 		}
 		// datums: hash of the datum's wire bytes -> range
-		for h, br := range rep.Datums {
+		for _, h := range sortedKeys(rep.Datums) {
+			br := rep.Datums[h]
 			ranges++
 			r := rr(br)
 			found := false
@@ -195,7 +199,8 @@ func compare(block []byte, lay *Layout, off *common.BlockTransactionOffsets) (mm
 			obs["unreported:datums"] += distinctHashes(block, exp.Datums) - len(rep.Datums)
 		}
 		// redeemers: (tag,index) -> range of the data element
-		for k, br := range rep.Redeemers {
+		for _, k := range sortedKeys(rep.Redeemers) {
+			br := rep.Redeemers[k]
 			ranges++
 			r := rr(br)
 			keyFound, found := false, false
@@ -222,7 +227,8 @@ func compare(block []byte, lay *Layout, off *common.BlockTransactionOffsets) (mm
 			obs["unreported:redeemers"] += len(exp.Redeemers) - len(rep.Redeemers)
 		}
 		// scripts: hash -> range of the script element
-		for h, br := range rep.Scripts {
+		for _, h := range sortedKeys(rep.Scripts) {
+			br := rep.Scripts[h]
 			ranges++
 			r := rr(br)
 			found := false
@@ -263,6 +269,22 @@ func compare(block []byte, lay *Layout, off *common.BlockTransactionOffsets) (mm
 		}
 	}
 	return
+}
+
+// sortedKeys returns the keys of a reported map ordered by reported offset (deterministic reports).
+func sortedKeys[K comparable](m map[K]common.ByteRange) []K {
+	ks := make([]K, 0, len(m))
+	for k := range m {
+		ks = append(ks, k)
+	}
+	sort.Slice(ks, func(i, j int) bool {
+		a, b := m[ks[i]], m[ks[j]]
+		if a.Offset != b.Offset {
+			return a.Offset < b.Offset
+		}
+		return a.Length < b.Length
+	})
+	return ks
 }
 
 func distinctHashes(block []byte, rs []Rng) int {
@@ -430,6 +452,15 @@ func report(fn, comp string, v *Variant, what string, extra map[string]any) {
 	k := fn + "|" + comp + "|" + fam + "|" + v.ClassKey()
 	cand := &pendingViolation{fn: fn, comp: comp, v: v, what: what, extra: extra, n: 1}
 	mu.Lock()
+	if len(v.Sites) == 0 {
+		origFail[fn+"|"+comp+"|"+v.Fx.Name] = true
+	}
+	if len(v.Sites) > 0 && origFail[fn+"|"+comp+"|"+v.Fx.Name] {
+		// the unchanged block already fails for this component: nothing new is learnt
+		counters["variant_failures_explained_by_the_failing_original"]++
+		mu.Unlock()
+		return
+	}
 	if len(v.Sites) == 1 {
 		d1Failing[k] = true
 	}
@@ -492,6 +523,12 @@ func resolvePending(all bool) {
 func main() {
 	c = vlib.New("C07", "exploration")
 	debug.SetGCPercent(400)
+	if pf := os.Getenv("VERIF_PPROF"); pf != "" {
+		f, _ := os.Create(pf)
+		pprof.StartCPUProfile(f)
+		defer pprof.StopCPUProfile()
+		stopProf = pprof.StopCPUProfile
+	}
 	fixtures := space.Blocks(true)
 	fixtures = append(fixtures, synthetic(fixtures)...)
 	if c.Replay != "" {
@@ -500,22 +537,37 @@ func main() {
 	}
 	spineTx := 1
 	if c.Thorough() {
-		spineTx = 3
+		spineTx = 2
 	}
 	var plans []*fxPlan
 	for i := range fixtures {
 		fxOrder[fixtures[i].Name] = i
-		p, err := newPlan(&fixtures[i], spineTx)
+		if strings.HasPrefix(fixtures[i].Name, "synth-") {
+			if ok, _ := decoderAccepts(fixtures[i].Type, fixtures[i].Cbor, skipCfg); !ok {
+				_, err := ledger.NewBlockFromCbor(fixtures[i].Type, fixtures[i].Cbor, skipCfg)
+				c.Note(fmt.Sprintf("harness-built block %s is not accepted by the era decoder and was left out: %v", fixtures[i].Name, err))
+				continue
+			}
+		}
+		p, err := newPlan(&fixtures[i], spineTx, !c.Thorough() && strings.HasPrefix(fixtures[i].Name, "synth-"))
 		if err != nil {
 			c.Internal("%v", err)
 		}
 		plans = append(plans, p)
 	}
-	if len(plans) < 11 {
+	if len(plans) < 15 {
 		c.Note(fmt.Sprintf("only %d fixtures could be read from the repository", len(plans)))
 	}
 	deadline := c.Deadline(45*time.Second, 8*time.Minute)
-	st := enumerate(c, plans, true, deadline, handle)
+	d2mode := 1
+	if c.Thorough() {
+		d2mode = 2
+	}
+	h := handle
+	if os.Getenv("VERIF_DRY") != "" { // planning aid: count the space without evaluating it
+		h = func(v *Variant) {}
+	}
+	st := enumerate(c, plans, d2mode, deadline, h)
 	resolvePending(false)
 	if st.DeadlineHit {
 		c.NotExhaustive(fmt.Sprintf("deadline: %d of %d site shards not explored", st.SkippedShards, st.ShardsTotal))
@@ -528,9 +580,11 @@ func main() {
 	c.Set("d1_per_fixture", st.PerFixtureD1)
 	c.Set("d2_per_fixture", st.PerFixtureD2)
 	c.Set("d2_spine_transactions", spineTx)
+	c.Set("d2_pairs", map[int]string{1: "pairs with at least one top-level container", 2: "all spine pairs"}[d2mode])
 	mu.Lock()
 	c.Set("counters", counters)
 	mu.Unlock()
+	stopProf()
 	c.Assume("blake2b (golang.org/x/crypto) is trusted")
 	c.Assume("a variant counts as accepted when ledger.NewBlockFromCbor accepts it with the default configuration or with the documented SkipBodyHashValidation option (re-encoding a body segment necessarily changes the body hash the header commits to)")
 	c.Assume("a component the extractor does not report at all (zero range, shorter list, absent map key) is counted as 'unreported', not as a violation: the property constrains the ranges that are reported")
